@@ -100,7 +100,13 @@ def _frozen_layout_over_window_reduction(prog, vals):
 def _roll_flat_unit_axes(prog, vals):
     """roll with axis=None (flatten, roll, reshape back) of an array of rank >= 3 whose last two axes have
     length 1."""
-    return any(s["op"] == "roll" and s.get("axis") is None and a[0].ndim >= 3 and a[0].shape[-1] == 1 and a[0].shape[-2] == 1 and a[0].size > 1 for s, a, r in _stmts(prog, vals))
+    for s, a, r in _stmts(prog, vals):
+        if s["op"] == "roll" and s.get("axis") is None and a[0].ndim >= 3 and a[0].shape[-1] == 1 and a[0].shape[-2] == 1 and a[0].size > 1:
+            return True
+        # the reshape-back half on its own: x.reshape(n, 1, 1) of a multi-element x
+        if s["op"] == "reshape" and r.ndim >= 3 and r.shape[-1] == 1 and r.shape[-2] == 1 and r.size > 1 and r.ndim > a[0].ndim:
+            return True
+    return False
 
 
 @excl("KF-zero-width-block-reductions")
@@ -182,7 +188,7 @@ def _reshape_zero_size(prog, vals):
     dimensions: raises while building, or builds a graph whose reshape blocks are missing."""
     for s, a, r in _stmts(prog, vals):
         if s["op"] in ("ravel", "reshape") or (s["op"] == "roll" and s.get("axis") is None):
-            if a[0].size == 0 and a[0].ndim >= 2:
+            if a[0].size == 0 and (a[0].ndim >= 2 or r.ndim >= 2):
                 return True
     return False
 
